@@ -5,6 +5,7 @@ import os
 ROOT = os.path.dirname(os.path.dirname(os.path.abspath(__file__)))
 
 HOOK_COMMITS = ["7a8ba4f"]
+FIX_COMMITS = ["5737839", "2d5e69c"]
 
 CHECKS = {
     "C01": dict(
@@ -38,6 +39,22 @@ CHECKS = {
         note="Trusted: TLC, projection. Connectedness as in Diagrams!Connected.",
         ref="5/C06", technique="TLA+ spec + TLC, replay, trace validation of rewrite histories"),
 }
+
+CHECKS["C07"] = dict(
+    text="Snake.tla specifies which cap/cup pairs satisfy a snake equation and transcribes follow_wire/find_snake/"
+         "unsnake; TLC checks on every rigid diagram in bounds (cups/caps of all orientations, windings -2..2) that "
+         "the algorithm never fails, only yanks snakes and ends well-typed and snake-free. Every dumped diagram "
+         "with a cap and a cup is replayed through normalize()/normal_form(); TLC judges each yielded step "
+         "(well-typed, same type, interchange or legal yank), the exceptions and the final form (J07).",
+    note="Trusted: TLC, projection. Denotation clause delegated to C09 (normal_form invariance).",
+    ref="5/C07", technique="TLA+ spec + TLC, replay of dumped states, trace validation of rewrite histories")
+CHECKS["C10"] = dict(
+    text="Perm.tla: arrangement of labelled wires with AdjSwap steps; TLC proves the transcribed swap recursion "
+         "and permutation loop meet SwapProp/PermProp for all lengths/permutations up to MaxN. The boxes returned "
+         "by the real swap/permutation/permute in the five classes are replayed as AdjSwap events and judged "
+         "(J10); non-permutations and length mismatches must be refused.",
+    note="Trusted: TLC, projection. Exhaustive for lengths <= MaxN (evidence).",
+    ref="5/C10", technique="TLA+ spec + TLC (exhaustive), returned boxes validated as an AdjSwap event log")
 
 NOT_YET = {}
 
